@@ -376,7 +376,14 @@ func (s *Store) lookupSecretInternal(ctx context.Context, name string) (Secret, 
 	// in which case we want to retry (up to a safety limit) when we discover
 	// the result was due to a context cancellation other than our own.
 	for {
+		// won records whether this caller ran the fetch itself. The winner's
+		// request is already bounded (by its own deadline or by the fallback
+		// below), so if it fails the winner must report that failure; only a
+		// caller that merely shared somebody else's flight may try again.
+		var won bool
 		v, err, _ := s.single.Do("lookup:"+name, func() (any, error) {
+			won = true
+
 			// If the winning caller's context doesn't already have a deadline,
 			// impose a safety fallback so requests do not stall forever if the
 			// infrastructure is farkakte.
@@ -403,7 +410,7 @@ func (s *Store) lookupSecretInternal(ctx context.Context, name string) (Secret, 
 		})
 		if err == nil {
 			return v.(Secret), nil
-		} else if errors.Is(err, context.DeadlineExceeded) || errors.Is(err, context.Canceled) {
+		} else if !won && (errors.Is(err, context.DeadlineExceeded) || errors.Is(err, context.Canceled)) {
 			if ctx.Err() == nil {
 				// This wasn't us timing out, try again.
 				continue
